@@ -1997,5 +1997,7 @@ func CopyQuery(query *Query) *Query {
 		orderByDefinition: query.orderByDefinition,
 		options:           query.options,
 		postProcessors:    query.postProcessors,
+		// a copy evaluates its own rows: it needs a memo of its own
+		singletonExecutions: make(map[string]any),
 	}
 }
